@@ -1,9 +1,285 @@
+import CoupeModel.Model.Codec
 import CoupeModel.Driver.Util
 
-namespace Coupe.Driver.C19
-open Coupe.Driver
+/-!
+# C19 driver: runs the codec models on the op lines of `harness/src/props/c19.rs`
 
-/-- (stub; not built yet) -/
-def handle (_toks : List String) : String := "bad-op"
+Ops (bytes as lower-case hex, `-` = empty; floats as hex bit patterns):
+* `penc <n> <id>*`                      → `<bytes> | <decoded>`
+* `pdec <bytes>`                        → `<decoded>`
+* `wenc <i|f> <nrows> <c> <value>*`     → `<bytes> | <decoded>`
+* `wdec <bytes>`                        → `<decoded>`
+* `mbenc <mesh>`                        → `<bytes> | bin <decoded>`
+* `maenc <mesh> <k> (<bits> <display>)*`→ `<text> | tok=<0|1> | ascii <decoded>`
+* `mdec <bytes> <k> (<token> <bits|->)*`→ `<bin|ascii|other> <decoded>`
+`<mesh>` = `dim nc coords* nr refs* nb (ty nn nodes* nr refs*)*`.
+Long fields (> 8192 chars) are replaced by `#<len> <fnv1a-64>`.
+-/
+
+namespace Coupe.Driver.C19
+open Coupe.Codec Coupe.Driver
+
+def hexVal (c : Char) : Option Nat :=
+  if c.isDigit then some (c.toNat - '0'.toNat)
+  else if 'a' ≤ c ∧ c ≤ 'f' then some (c.toNat - 'a'.toNat + 10)
+  else none
+
+def hexPairs : List Char → List Nat → Option (List Nat)
+  | [], acc => some acc.reverse
+  | a :: b :: r, acc =>
+    match hexVal a, hexVal b with
+    | some x, some y => hexPairs r ((x * 16 + y) :: acc)
+    | _, _ => none
+  | _, _ => none
+
+def hexToBytes (s : String) : Option (List Nat) :=
+  if s = "-" then some [] else hexPairs s.toList []
+
+def bytesToHex (bs : List Nat) : String :=
+  if bs.isEmpty then "-" else
+  String.ofList (bs.foldr (fun b acc => hexDigit (b / 16) :: hexDigit (b % 16) :: acc) [])
+
+def fnv (s : String) : Nat :=
+  s.toList.foldl (fun h c => ((h ^^^ c.toNat) * 0x100000001b3) % 18446744073709551616)
+    0xcbf29ce484222325
+
+def cap (s : String) : String :=
+  if s.length > 8192 then "#" ++ toString s.length ++ " " ++ toHex (fnv s) else s
+
+def fmtErr : Err → String
+  | .badHeader => "err badheader"
+  | .unsupportedVersion => "err version"
+  | .eof => "err io"
+  | .unexpectedToken => "err tok"
+  | .badInteger => "err int"
+  | .badFloat => "err float"
+  | .capOverflow => "panic capacity overflow"
+  | .mulOverflow => "panic attempt to multiply with overflow"
+  | .subOverflow => "panic attempt to subtract with overflow"
+  | .addOverflow => "panic attempt to add with overflow"
+  | .tooManyCriteria => "panic Too many criterions"
+  | .outOfFuel => "abort fuel"
+  | .declined => "skip declined"
+
+/-- a panic or a declined prediction anywhere takes over the whole line. -/
+def finish (prefix_ : String) (res : String) : String :=
+  if res.startsWith "panic" || res.startsWith "skip" then res else prefix_ ++ res
+
+def joinHex (l : List Nat) : String := " ".intercalate (l.map toHex)
+
+def fmtIds : Except Err (List Nat) → String
+  | .ok ids => cap ("ok " ++ toString ids.length ++ (if ids.isEmpty then "" else " " ++ joinNats ids))
+  | .error e => fmtErr e
+
+def rowsWidth {α} (rows : List (List α)) : Nat := (rows.head?.map List.length).getD 0
+
+def fmtW : Except Err WArray → String
+  | .ok (.ints rows) =>
+    cap ("ok i " ++ toString rows.length ++ " " ++ toString (rowsWidth rows) ++
+      (if rows.flatten.isEmpty then "" else " " ++ joinInts rows.flatten))
+  | .ok (.floats rows) =>
+    cap ("ok f " ++ toString rows.length ++ " " ++ toString (rowsWidth rows) ++
+      (if rows.flatten.isEmpty then "" else " " ++ joinHex rows.flatten))
+  | .error e => fmtErr e
+
+def tyName : ElemType → String
+  | .vertex => "v" | .edge => "e" | .triangle => "t" | .quadrangle => "qa"
+  | .quadrilateral => "ql" | .tetrahedron => "te" | .hexahedron => "h"
+
+def parseTy? : String → Option ElemType
+  | "v" => some .vertex | "e" => some .edge | "t" => some .triangle | "qa" => some .quadrangle
+  | "ql" => some .quadrilateral | "te" => some .tetrahedron | "h" => some .hexahedron
+  | _ => none
+
+def fmtBlock (b : Block) : List String :=
+  [tyName b.ty, toString b.nodes.length] ++ b.nodes.map toString ++
+    [toString b.refs.length] ++ b.refs.map toString
+
+def fmtMeshOk (m : Mesh) : String :=
+  cap (" ".intercalate (["ok", toString m.dim, toString m.coords.length] ++ m.coords.map toHex ++
+    [toString m.nodeRefs.length] ++ m.nodeRefs.map toString ++ [toString m.topo.length] ++
+    m.topo.flatMap fmtBlock))
+
+def fmtMesh : Except Err Mesh → String
+  | .ok m => fmtMeshOk m
+  | .error e => fmtErr e
+
+def counted {α} (f : String → Option α) : List String → Option (List α × List String)
+  | [] => none
+  | n :: rest => do
+    let n ← parseNat? n
+    takeParsed f n rest
+
+def parseBlocks : Nat → List String → Option (List Block × List String)
+  | 0, rest => some ([], rest)
+  | _ + 1, [] => none
+  | n + 1, ty :: rest => do
+    let ty ← parseTy? ty
+    let (nodes, rest) ← counted parseNat? rest
+    let (refs, rest) ← counted parseInt? rest
+    let (bs, rest) ← parseBlocks n rest
+    pure (⟨ty, nodes, refs⟩ :: bs, rest)
+
+def parseMesh (toks : List String) : Option (Mesh × List String) :=
+  match toks with
+  | dim :: rest => do
+    let dim ← parseNat? dim
+    let (coords, rest) ← counted parseHex? rest
+    let (refs, rest) ← counted parseInt? rest
+    match rest with
+    | nb :: rest =>
+      let nb ← parseNat? nb
+      let (bs, rest) ← parseBlocks nb rest
+      pure (⟨dim, coords, refs, bs⟩, rest)
+    | [] => none
+  | [] => none
+
+/-- what `Mesh::from_raw_parts` asserts (the harness builds meshes with it). -/
+def rawPartsOk (m : Mesh) : Bool :=
+  m.dim ≠ 0 && m.coords.length == m.dim * m.nodeRefs.length &&
+    m.topo.all (fun b => b.nodes.length == b.refs.length * b.ty.nodeCount)
+
+/-! Rust integer syntax (`usize::from_str`, `isize::from_str`). -/
+
+def digits? (bs : List Nat) : Option Nat :=
+  if bs.isEmpty then none else
+  bs.foldlM (fun acc b => if 48 ≤ b ∧ b ≤ 57 then some (acc * 10 + (b - 48)) else none) 0
+
+def parseUsize (bs : List Nat) : Option Nat :=
+  let ds := match bs with
+    | 43 :: r => r
+    | r => r
+  match digits? ds with
+  | some n => if n < 18446744073709551616 then some n else none
+  | none => none
+
+def parseIsize (bs : List Nat) : Option Int :=
+  match bs with
+  | 45 :: r =>
+    match digits? r with
+    | some n => if n ≤ 9223372036854775808 then some (-(n : Int)) else none
+    | none => none
+  | _ =>
+    match parseUsize bs with
+    | some n => if n < 9223372036854775808 then some (n : Int) else none
+    | none => none
+
+def showNat (n : Nat) : List Nat := strB (toString n)
+def showInt (i : Int) : List Nat := strB (toString i)
+
+/-- number syntax: integers as Rust does, floats through the table the harness
+computed with Rust's `Display`/`FromStr` (the abstract part of the model). -/
+def mkFmt (shows : List (Nat × List Nat)) (parses : List (List Nat × Option Nat)) : NumFmt where
+  showU := showNat
+  showI := showInt
+  showF := fun x => ((shows.find? (·.1 == x)).map (·.2)).getD (strB "?")
+  parseUT := fun s => parseUsize (s.map asciiLower)
+  parseU := parseUsize
+  parseI := parseIsize
+  parseF := fun s => ((parses.find? (·.1 == s)).map (·.2)).getD none
+
+def parseShowTable : Nat → List String → Option (List (Nat × List Nat) × List String)
+  | 0, rest => some ([], rest)
+  | n + 1, b :: s :: rest => do
+    let b ← parseHex? b
+    let s ← hexToBytes s
+    let (t, rest) ← parseShowTable n rest
+    pure ((b, s) :: t, rest)
+  | _, _ => none
+
+def parseParseTable : Nat → List String → Option (List (List Nat × Option Nat) × List String)
+  | 0, rest => some ([], rest)
+  | n + 1, s :: b :: rest => do
+    let s ← hexToBytes s
+    let b ← if b = "-" then some none else (parseHex? b).map some
+    let (t, rest) ← parseParseTable n rest
+    pure ((s, b) :: t, rest)
+  | _, _ => none
+
+def chunkRows {α} (c : Nat) : Nat → List α → List (List α)
+  | 0, _ => []
+  | n + 1, l => l.take c :: chunkRows c n (l.drop c)
+
+def decodeAny (F : NumFmt) (bytes : List Nat) : String :=
+  match sniff bytes with
+  | .binary => finish "bin " (fmtMesh (decodeMeditBin bytes))
+  | .ascii =>
+    if bytes.any (fun b => b = 11 || b = 12) then "skip vt/ff whitespace" else
+    finish "ascii " (fmtMesh (parseTokens F (tokenize bytes)))
+  | .other => "other"
+  | .declined => "skip non-ascii text"
+
+def handle (toks : List String) : String :=
+  match toks with
+  | "penc" :: n :: rest =>
+    match (do
+      let n ← parseNat? n
+      let (ids, rest) ← takeParsed parseNat? n rest
+      if rest.isEmpty then some ids else none) with
+    | none => "bad-op"
+    | some ids =>
+      let b := encodePartition ids
+      finish (cap (bytesToHex b) ++ " | ") (fmtIds (decodePartition b))
+  | ["pdec", h] =>
+    match hexToBytes h with
+    | none => "bad-op"
+    | some b => fmtIds (decodePartition b)
+  | "wenc" :: kind :: n :: c :: rest =>
+    match (do
+      let n ← parseNat? n
+      let c ← parseNat? c
+      if kind = "i" then
+        let (vs, rest) ← takeParsed parseInt? (n * c) rest
+        if rest.isEmpty then some (WArray.ints (chunkRows c n vs)) else none
+      else if kind = "f" then
+        let (vs, rest) ← takeParsed parseHex? (n * c) rest
+        if rest.isEmpty then some (WArray.floats (chunkRows c n vs)) else none
+      else none) with
+    | none => "bad-op"
+    | some a =>
+      match encodeWeights a with
+      | .error e => fmtErr e
+      | .ok b => finish (cap (bytesToHex b) ++ " | ") (fmtW (decodeWeights b))
+  | ["wdec", h] =>
+    match hexToBytes h with
+    | none => "bad-op"
+    | some b => fmtW (decodeWeights b)
+  | "mbenc" :: rest =>
+    match parseMesh rest with
+    | some (m, []) =>
+      if ¬ rawPartsOk m then "bad-op"
+      else if binWriterPanics m then "panic attempt to add with overflow"
+      else
+        let b := encodeMeditBin m
+        finish (cap (bytesToHex b) ++ " | ") (decodeAny (mkFmt [] []) b)
+    | _ => "bad-op"
+  | "maenc" :: rest =>
+    match (do
+      let (m, rest) ← parseMesh rest
+      match rest with
+      | k :: rest =>
+        let k ← parseNat? k
+        let (t, rest) ← parseShowTable k rest
+        if rest.isEmpty then some (m, t) else none
+      | [] => none) with
+    | none => "bad-op"
+    | some (m, t) =>
+      if ¬ rawPartsOk m then "bad-op"
+      else if asciiWriterPanics m then "panic attempt to add with overflow"
+      else
+        let F := mkFmt t (t.map fun (b, s) => (s, some b))
+        let text := writeText F m
+        let tokOk := tokenize text == writeTokens F m
+        finish (cap (bytesToHex text) ++ " | tok=" ++ (if tokOk then "1" else "0") ++ " | ")
+          (decodeAny F text)
+  | "mdec" :: h :: k :: rest =>
+    match (do
+      let b ← hexToBytes h
+      let k ← parseNat? k
+      let (t, rest) ← parseParseTable k rest
+      if rest.isEmpty then some (b, t) else none) with
+    | none => "bad-op"
+    | some (b, t) => decodeAny (mkFmt [] t) b
+  | _ => "bad-op"
 
 end Coupe.Driver.C19
